@@ -94,3 +94,60 @@ impl Spec {
         self.rates.keys().cloned().collect()
     }
 }
+
+impl Spec {
+    /// every lower-case word that means something to the tokenizer besides being a zone name
+    pub fn reserved_words(&self) -> std::collections::BTreeSet<String> {
+        let mut r = std::collections::BTreeSet::new();
+        for c in self.currencies.keys() {
+            r.insert(c.clone());
+        }
+        for a in self.currency_alias.keys() {
+            r.insert(a.to_lowercase());
+        }
+        for l in self.languages.iter() {
+            for w in self.words(l) {
+                r.insert(w.to_lowercase());
+            }
+            // literal words of the rule patterns
+            if let Some(rules) = self.lang(l)["rules"].as_object() {
+                for rule in rules.values() {
+                    for p in rule["rules"].as_array().unwrap() {
+                        for w in p.as_str().unwrap().split(|c: char| !c.is_alphabetic()) {
+                            if !w.is_empty() && w.chars().all(|c| c.is_lowercase()) {
+                                r.insert(w.to_string());
+                            }
+                        }
+                    }
+                }
+            }
+        }
+        for t in self.json["types"].as_array().unwrap() {
+            for it in t["items"].as_array().unwrap() {
+                for n in it["names"].as_array().unwrap() {
+                    r.insert(n.as_str().unwrap().to_lowercase());
+                }
+                for p in it["parse"].as_array().unwrap() {
+                    let w = p.as_str().unwrap().rsplit(' ').next().unwrap();
+                    let w = w.trim_start_matches("{TEXT:type:").trim_end_matches('}');
+                    r.insert(w.to_lowercase());
+                }
+            }
+        }
+        for w in ["am", "pm", "gmt"] {
+            r.insert(w.to_string());
+        }
+        r
+    }
+
+    /// zone names the zone syntax can express ([A-Z]{2,4}) and that mean nothing else
+    pub fn usable_zones(&self) -> Vec<(String, i32)> {
+        let reserved = self.reserved_words();
+        self.zones
+            .iter()
+            .filter(|(n, _)| n.len() >= 2 && n.len() <= 4 && n.chars().all(|c| c.is_ascii_uppercase()))
+            .filter(|(n, _)| !reserved.contains(&n.to_lowercase()) || n.as_str() == "GMT")
+            .map(|(n, o)| (n.clone(), *o))
+            .collect()
+    }
+}
